@@ -430,6 +430,8 @@ void gen_sched_params(Rng &rng, Plan &plan, bool thorough)
 	plan.setp("sched_pct_d", 1 + (int)rng.below(3));
 	plan.setp("sched_pct_horizon", 200 + (int)rng.below(3000));
 	plan.setp("sched_seed", (int64_t)(rng.next() >> 1));
+	// the handle may have served another coder before (see DirtySpec)
+	if (rng.chance(250)) { plan.setp("dirty_kind", 1 + (int64_t)rng.below(10)); plan.setp("dirty_seed", (int64_t)rng.below(1 << 20)); }
 }
 
 void sim_from_plan(const Plan &plan, sim_params &sp)
@@ -475,7 +477,13 @@ void run_plan(const Plan &plan, Verdict &v)
 	sim_params sp;
 	sim_from_plan(plan, sp);
 	sim_begin(&sp);
+	// (C09 measures peaks and C10 counts allocations from the first one: both have their own reuse scenarios)
+	g_dirty.kind = (plan.prop == "C09" || plan.prop == "C10") ? 0 : (int)plan.p("dirty_kind", 0);
+	g_dirty.seed = (uint64_t)plan.p("dirty_seed", 0);
+	g_dirty.uses = 0;
 	s->exec(plan, v);
+	if (g_dirty.uses) v.count("reach.handle_served_another_coder_before", g_dirty.uses);
+	g_dirty.kind = 0;
 	v.trace_hash = sim_trace_hash();
 	const sim_counters *c = sim_get_counters();
 	v.counters["sim.steps"] += c->steps;
